@@ -10,7 +10,10 @@ def gen(rng, n, tier):
 
 register(PropSpec(
     "C04",
-    engines=[EngineSpec("exec", gen, mon_exec.mon_c04, mon_exec.tags_c04, quick_n=250, thorough_n=6000, mask=mon_exec.mask_unmodelled)],
+    engines=[EngineSpec("exec", gen, mon_exec.mon_c04, mon_exec.tags_c04, quick_n=250, thorough_n=6000, mask=mon_exec.mask_unmodelled,
+                        hyp_alarm={"listedfinal=1": ("C04/final-record-listed-when-the-timeout-step-runs",
+                                                     "the model (which agrees with the node on this history) reaches a block whose timeout step finds a SUCCESS / FAILURE / "
+                                                     "ROLLBACK record on the list of that height: the hypothesis of C04_block_final_stays fails and the step overwrites the final status")})],
     facts=["txFsm"],
     rule="exec engine: per transaction id a generated life (request with timeout 0/1/2/3/4/10/huge/negative, success/failure/rollback receipts "
          "before/at/after the deadline, repeated and out-of-protocol receipts, unrelated and empty blocks); GetStatus observed after every block; "
